@@ -97,7 +97,7 @@ partial def loop (h : IO.FS.Stream) (st : DState) (stats : Stats) (lineNo : Nat)
         bad := true
         stats := { stats with implNeSpec := stats.implNeSpec + 1 }
         IO.println s!"NE {lineNo} IMPL_NE_SPEC | {recipe} | impl={impl} | spec={ev.spec.getD ""} | model={ev.model}"
-      else if !agrees s modelN then
+      else if !(agrees s modelN || agrees modelN s) then   -- (the model may leave a token open with `*`, too)
         bad := true
         stats := { stats with modelNeSpec := stats.modelNeSpec + 1 }
         IO.println s!"NE {lineNo} MODEL_NE_SPEC | {recipe} | impl={impl} | spec={ev.spec.getD ""} | model={ev.model}"
